@@ -49,6 +49,8 @@ def main(spec):
         for p in spec.get("pop", []):
             C.REGISTRY.pop(p, None)
         C.KNOWN[:] = spec.get("known", [])
+        from pyvc import smt as SMT
+        SMT.EXPORT[0] = bool(spec.get("export_all"))
         I = new_interp()
         res, npaths = C.verify(I, spec["target"], timeout_ms=spec.get("timeout_ms", 10000), only=spec.get("only"))
         f = I.get_func(spec["target"]); src = ast.unparse(f.node)
@@ -61,7 +63,7 @@ def main(spec):
             rep["results"].append({"name": r.name, "path": r.path, "status": v.status, "backend": v.backend, "secs": round(v.secs, 4), "lemmas": v.lemmas,
                                    "detail": v.detail, "model": model_json(v.model) if v.status == "refuted" else None,
                                    "canary": "CANARY" in r.name, "guard": bool(r.meta.get("guard")),
-                                   "known_finding": r.meta.get("known_finding"), "smt2": r.meta.get("smt2"),
+                                   "known_finding": r.meta.get("known_finding"), "smt2": r.meta.get("smt2"), "deciding_query": (v.smt2() if v.status == "proved" and v.query is not None else None),
                                    "meta": {k: (v2 if isinstance(v2, (str, int, float, bool, list, type(None))) else str(v2)) for k, v2 in r.meta.items() if k not in ("smt2", "known_finding", "guard")}})
     except Exception as ex:
         rep["error"] = f"{type(ex).__name__}: {ex}"; rep["traceback"] = traceback.format_exc()[-3000:]
